@@ -43,6 +43,14 @@ def guard_of(facts, f, op_suffixes):
               any(facts.callee_name(t["callee"]).endswith(s) for s in op_suffixes) and
               facts.callee_name(t["callee"]).startswith("xml_info::")]
     if not op_bbs:
+        # the operation may sit in a private piece the method was split into (`self.split_under(v, offset)`): the call of that
+        # piece is the operation as far as the guard of this method is concerned
+        def does_op(g):
+            return any(t.get("callee") and facts.callee_name(t["callee"]).startswith("xml_info::") and
+                       any(facts.callee_name(t["callee"]).endswith(s) for s in op_suffixes) for _, t in facts.mir_calls(g))
+        helpers = {g["path"] for g in facts.family(f) if g["id"] != f["id"] and does_op(g)}
+        op_bbs = [bi for bi, t in facts.mir_calls(f) if t.get("callee") and facts.callee_name(t["callee"]) in helpers]
+    if not op_bbs:
         return {"error": "operation call %s not found" % (op_suffixes,)}
     guards = []
     for bi in succ:
@@ -194,6 +202,11 @@ def run(facts, tier):
     st5 = res.rule("C16-5", instances=0)
     for ty in ("XmlText", "XmlCDataSection"):
         f = facts.fn("xml_dom::<%s as TextMut>::split_text" % ty)
+        # the method itself, or the private piece of it that holds the split and the insertion
+        for g in facts.family(f):
+            if any(t.get("callee") and facts.callee_name(t["callee"]).endswith("::split_at") for _, t in facts.mir_calls(g)):
+                f = g
+                break
         succ = e1.cfg(facts, f)
         dom, _ = e1.dominators(succ)
         sp = [bi for bi, t in facts.mir_calls(f) if t.get("callee") and facts.callee_name(t["callee"]).endswith("::split_at")]
